@@ -38,6 +38,7 @@ ITEMS = [
     Item('FileDumper.rows_processor', DM.sym_rows_processor, [], DM.D + 'file_dumper.py::FileDumper.rows_processor'),
     Item('FileDumper.dispatch', DM.sym_file_dumper_dispatch, [], DM.D + 'file_dumper.py::FileDumper.process_datapackage'),
     Item('iterable_storage.describe', BA.sym_iterable_storage, [], 'dataflows/helpers/iterable_loader.py::iterable_storage.describe'),
+    Item('iterable_loader.lazy', BA.sym_iterable_loader_lazy, [], 'dataflows/helpers/iterable_loader.py::iterable_loader.process_datapackage'),
     Item('LazyIterator+get_iterator', BA.sym_get_iterator, [], BA.B + 'datastream_processor.py::DataStreamProcessor.get_iterator'),
     # building the chain runs nothing (a first-run checkpoint is the steps + stream + notify, whatever an earlier run left behind)
     Item('checkpoint', S.sym_checkpoint, [], 'dataflows/processors/checkpoint.py::checkpoint._preprocess_chain'),
